@@ -9,7 +9,6 @@ use futures::task::{waker, ArcWake};
 use futures::Stream;
 use std::collections::{HashMap, VecDeque};
 use std::pin::Pin;
-use std::sync::atomic::{AtomicUsize, Ordering};
 use std::sync::{Arc, Mutex};
 use std::task::{Context, Poll, Waker};
 use zeromq::__verif::{FairQueueHandle, FairQueueProbe};
@@ -153,10 +152,14 @@ impl Stream for ScriptStream {
     }
 }
 
-struct Cnt(AtomicUsize);
+/// one receiver waker per task context the application polls from; every wake-up is logged
+struct Cnt {
+    id: u32,
+    log: Arc<Mutex<Vec<u32>>>,
+}
 impl ArcWake for Cnt {
     fn wake_by_ref(a: &Arc<Self>) {
-        a.0.fetch_add(1, Ordering::SeqCst);
+        a.log.lock().unwrap().push(a.id);
     }
 }
 
@@ -164,7 +167,10 @@ pub struct FqEngine {
     world: Shared,
     probe: FairQueueProbe<ScriptStream, u32>,
     handle: FairQueueHandle<ScriptStream, u32>,
-    wakes: Arc<Cnt>,
+    /// which receiver waker was woken, in order
+    log: Arc<Mutex<Vec<u32>>>,
+    /// the waker later polls are made with
+    cur: u32,
 }
 
 fn parse_env(words: &[&str]) -> Option<EnvOp> {
@@ -183,7 +189,16 @@ impl FqEngine {
     pub fn new() -> Self {
         let probe = FairQueueProbe::new(true);
         let handle = probe.handle();
-        FqEngine { world: Arc::new(Mutex::new(World::default())), probe, handle, wakes: Arc::new(Cnt(AtomicUsize::new(0))) }
+        FqEngine { world: Arc::new(Mutex::new(World::default())), probe, handle, log: Arc::new(Mutex::new(Vec::new())), cur: 0 }
+    }
+
+    /// `w=<waker woken last> wakes=<number of wake-ups so far>`
+    fn wk(&self) -> String {
+        let l = self.log.lock().unwrap();
+        match l.last() {
+            Some(w) => format!("w={} wakes={}", w, l.len()),
+            None => format!("w=- wakes={}", l.len()),
+        }
     }
 
     pub fn op(&mut self, words: &[&str]) -> String {
@@ -195,7 +210,14 @@ impl FqEngine {
             "insert" | "remove" | "arrive" | "close" | "exhaust" => match parse_env(words) {
                 Some(op) => {
                     apply(&self.world, &self.handle, &op);
-                    format!("ok wakes={}", self.wakes.0.load(Ordering::SeqCst))
+                    format!("ok {}", self.wk())
+                }
+                None => "bad-op".into(),
+            },
+            "setwaker" => match words.get(1).and_then(|s| s.parse().ok()) {
+                Some(w) => {
+                    self.cur = w;
+                    format!("ok {}", self.wk())
                 }
                 None => "bad-op".into(),
             },
@@ -218,11 +240,11 @@ impl FqEngine {
                 "ok".into()
             }
             "poll" => {
-                let w = waker(self.wakes.clone());
+                let w = waker(Arc::new(Cnt { id: self.cur, log: self.log.clone() }));
                 let mut cx = Context::from_waker(&w);
                 self.world.lock().unwrap().polls = 0;
                 let r = std::panic::catch_unwind(std::panic::AssertUnwindSafe(|| self.probe.poll_next(&mut cx)));
-                let wk = self.wakes.0.load(Ordering::SeqCst);
+                let wk = self.wk();
                 let livelock = {
                     let mut w = self.world.lock().unwrap();
                     // the call has returned: the executor runs and the budget is refreshed
@@ -233,9 +255,9 @@ impl FqEngine {
                     return format!("LIVELOCK stream-polls>{}", SPIN_LIMIT);
                 }
                 match r {
-                    Ok(Poll::Pending) => format!("pending wakes={}", wk),
-                    Ok(Poll::Ready(Some((k, i)))) => format!("ready {} {} wakes={}", k, i, wk),
-                    Ok(Poll::Ready(None)) => format!("ready none wakes={}", wk),
+                    Ok(Poll::Pending) => format!("pending {}", wk),
+                    Ok(Poll::Ready(Some((k, i)))) => format!("ready {} {} {}", k, i, wk),
+                    Ok(Poll::Ready(None)) => format!("ready none {}", wk),
                     Err(_) => "PANIC".into(),
                 }
             }
